@@ -452,6 +452,7 @@ func verifyRecovered(p Prog, dir string, acked, issued int, label string) (int, 
 
 type crashStats struct {
 	points, runs, midOp, recoveries int
+	stride                          int // C10 thorough: every stride-th hook of a long workload
 	batchRot, batchRotRuns          int // write batches with a memtable rotation between two of their requests; loss runs aimed at them
 	sites                           map[string]int
 }
